@@ -56,11 +56,12 @@ def handle : Handler := fun op args impl =>
     let ph ← parseInt? ph
     let code ← parseInt? code
     let rows ← decRows rows
-    if ph < 0 then some ⟨"unmodelled", "na"⟩ else
-    let ph := ph.toNat
-    let m := match translateByReference NUCLEOTIDS ph code refName rows with
+    let m := match translateByReferenceZ NUCLEOTIDS ph code refName rows with
       | none => "err"
       | some out => renderAl out
+    -- a negative phase must be refused (an error, not a crash, not a result)
+    if ph < 0 then some ⟨m, verdictOf (impl.startsWith "err") "byref-negative-phase-must-fail"⟩ else
+    let ph := ph.toNat
     let v := match parseAl impl with
       | none => if impl.startsWith "err" then "na" else "fail:unparsable"
       | some (len, out) =>
@@ -72,7 +73,9 @@ def handle : Handler := fun op args impl =>
         if !(out.all fun r => r.2.length == w) || (len != (w : Int) && !out.isEmpty) then "fail:byref-not-rectangular" else
         let L : Nat := match rows with | [] => 0 | r :: _ => r.2.length
         let nogaps := rows.all fun r => r.2.all (· != GAP)
-        if nogaps && L ≥ 3 + ph && out != (rows.map fun r => (r.1, specTranslate tbl (r.2.drop ph))) then
+        -- like plain translation: no result on an alignment shorter than 3 + phase
+        if L < 3 + ph then "fail:byref-short-must-fail" else
+        if nogaps && out != (rows.map fun r => (r.1, specTranslate tbl (r.2.drop ph))) then
           "fail:byref-differs-from-plain-translation"
         else if ph == 0 then
           match findRow refName rows, findRow refName out with
